@@ -83,6 +83,19 @@ impl<T: FileReader> RVParser<T> {
         }
     }
 
+    /// Create the lexer for the text of a file.
+    ///
+    /// Every statement is terminated by a newline. A file whose last line is
+    /// not terminated gets the missing newline here, so that its final
+    /// statement is parsed (or reported) like any other statement instead of
+    /// being dropped at the end of input.
+    fn new_lexer(mut text: String, id: Uuid) -> Lexer {
+        if !text.ends_with('\n') {
+            text.push('\n');
+        }
+        Lexer::new(text, id)
+    }
+
     /// Skip the rest of the line
     ///
     /// This is used to recover from parse errors. If there is a parse error,
@@ -111,7 +124,7 @@ impl<T: FileReader> RVParser<T> {
 
         // import base lexer
         let lexer = match self.reader.import_file(base, None) {
-            Ok(x) => Lexer::new(x.1, x.0),
+            Ok(x) => Self::new_lexer(x.1, x.0),
             Err(e) => {
                 parse_errors.push(e.to_parse_error(With::new(base.to_owned(), Token::default())));
                 return (nodes, parse_errors);
@@ -136,7 +149,7 @@ impl<T: FileReader> RVParser<T> {
                             match self.reader.import_file(path.get(), Some(path.file())) {
                                 Ok((new_uuid, new_text)) => {
                                     self.lexer_stack
-                                        .push(Lexer::new(new_text, new_uuid).peekable());
+                                        .push(Self::new_lexer(new_text, new_uuid).peekable());
                                 }
                                 Err(error) => {
                                     parse_errors.push(error.to_parse_error(path.clone()));
@@ -149,8 +162,14 @@ impl<T: FileReader> RVParser<T> {
                 }
                 Err(x) => match x {
                     LexError::Expected(ex, got) => {
+                        // If the line ended too early, the newline has
+                        // already been consumed. Skipping to the next newline
+                        // would then swallow the following line.
+                        let line_is_over = *got == TokenType::Newline;
                         parse_errors.push(ParseError::Expected(ex, got));
-                        self.recover_from_parse_error();
+                        if !line_is_over {
+                            self.recover_from_parse_error();
+                        }
                     }
                     LexError::IsNewline(_) => {}
                     LexError::UnexpectedToken(got) => {
